@@ -87,6 +87,24 @@ func msgEqual(a, b *message.Message) (bool, string) {
 
 func allocBound(n int) uint64 { return uint64(n) + 2*cbg.ByteArrayMaxLen + 256<<10 }
 
+var canaryMsg = message.Message{Cid: cids()[3], Addrs: [][]byte{[]byte("canary-address-1"), []byte("canary-address-two")}, ExtraData: []byte("canary-extra"), OrigPeer: fixture.Key("ed25519", 11).ID.String()}
+
+// canaryDecode round-trips a fixed valid message and says what differs.
+func canaryDecode() string {
+	var buf bytes.Buffer
+	if err := canaryMsg.MarshalCBOR(&buf); err != nil {
+		return "encoding the valid message failed: " + err.Error()
+	}
+	var back message.Message
+	if err := back.UnmarshalCBOR(bytes.NewReader(buf.Bytes())); err != nil {
+		return "decoding the valid message failed: " + err.Error()
+	}
+	if ok, why := msgEqual(&canaryMsg, &back); !ok {
+		return "the valid message comes back with a different " + why
+	}
+	return ""
+}
+
 // TestChild is the isolated CBOR decoder worker.
 func TestChild(t *testing.T) {
 	vp.ServeChild(func(kind byte, data []byte) vp.Reply {
@@ -105,6 +123,11 @@ func TestChild(t *testing.T) {
 		}
 		if err != nil {
 			rep.Err = err.Error()
+			// a rejected input leaves nothing behind: a valid message decoded
+			// right after it (same process, same package state) is itself
+			if why := canaryDecode(); why != "" {
+				rep.Flag, rep.Info = "valid-message-decodes-differently-after-a-rejected-input", why
+			}
 			return rep
 		}
 		rep.OK = true
@@ -197,6 +220,9 @@ func (d *decoder) flush() {
 			r.Violation("decode:panic:"+m.kind, m.key, fmt.Sprintf("decoding %d bytes (%x...) panicked: %s", len(m.data), trunc(m.data), rep.PanicMsg), nil)
 		case !rep.OK:
 			r.Outcome("error")
+			if rep.Flag != "" {
+				r.Violation("decode:"+rep.Flag+":"+m.kind, m.key, fmt.Sprintf("input %x...: %s", trunc(m.data), rep.Info), nil)
+			}
 		default:
 			r.Outcome("accepted")
 			if rep.Flag != "" {
@@ -228,7 +254,7 @@ func hdr(maj byte, n uint64) []byte {
 
 func TestCheck(t *testing.T) {
 	r := vp.New("C10", "exploration",
-		"messages: {CIDv0, CIDv1 x 3 codecs x 3 hash functions} x {every list of 0..3 addresses over a 5-symbol alphabet incl. unknown-protocol, empty and 300-byte strings} x {extra data nil/empty/1/24/256 bytes} x {orig peer absent/present}, CBOR and JSON round trips, the CBOR decoder also fed through readers that deliver one byte / half / 7 bytes per Read or the error together with the last data; HTTP sender (CBOR and JSON) and pubsub sender for every address list of <=3 over {3 valid, 1 unknown-protocol}, the HTTP sender also with extra data whose only, first or last byte is each of the 256 byte values (lists of <=1 address), with an original-peer field and with extra data carried by the message instead of the sender option, and one message value sent through a sender with extra data of its own and then through a plain one; CBOR decoder: for each corpus encoding every single-byte substitution, every truncation, every CBOR header token at every offset (replacing 0 or 1 byte) singly and a reduced token set in adjacent pairs, lengths at and just above each cap, all byte strings of length <=2. Non-trivial: messages with at least one address or extra data; decoder inputs other than the corpus.",
+		"messages: {CIDv0, CIDv1 x 3 codecs x 3 hash functions} x {every list of 0..3 addresses over a 5-symbol alphabet incl. unknown-protocol, empty and 300-byte strings} x {extra data nil/empty/1/24/256 bytes} x {orig peer absent/present}, CBOR and JSON round trips, the CBOR decoder also fed through readers that deliver one byte / half / 7 bytes per Read or the error together with the last data; HTTP sender (CBOR and JSON) and pubsub sender for every address list of <=3 over {3 valid, 1 unknown-protocol}, the HTTP sender also with extra data whose only, first or last byte is each of the 256 byte values (lists of <=1 address), with an original-peer field and with extra data carried by the message instead of the sender option, one message value sent through a sender with extra data of its own and then through a plain one, and one sender used for sequences of JSON and CBOR announcements (the declared content type is checked on every request); CBOR decoder: for each corpus encoding every single-byte substitution, every truncation, every CBOR header token at every offset (replacing 0 or 1 byte) singly and a reduced token set in adjacent pairs, lengths at and just above each cap, all byte strings of length <=2; after every rejected input the worker decodes a fixed valid message and compares it. Non-trivial: messages with at least one address or extra data; decoder inputs other than the corpus.",
 		"equality treats nil and empty byte fields alike",
 		"allocation bound: input length + 2 x ByteArrayMaxLen + 256 KiB",
 		"decoder inputs run in a worker subprocess with a 6 GiB address-space limit",
@@ -718,6 +744,11 @@ func checkSenders(r *vp.Recorder) {
 					r.Violation("httpsender:receiver-cannot-decode:"+mode, key, fmt.Sprintf("receiver cannot decode the %s body (content type %q): %v", mode, ct, err), nil)
 					continue
 				}
+				// a receiver picks its decoder by the declared content type
+				if wantCT := map[string]string{"cbor": "application/octet-stream", "json": "application/json"}[mode]; ct != wantCT {
+					r.Violation("httpsender:content-type:"+mode, key, fmt.Sprintf("a %s announcement was sent with Content-Type %q, want %q", mode, ct, wantCT), nil)
+					continue
+				}
 				addrs, err := got.GetAddrs()
 				if err != nil {
 					r.Violation("httpsender:receiver-getaddrs", key, err.Error(), nil)
@@ -816,6 +847,56 @@ func checkSenders(r *vp.Recorder) {
 			}
 			r.Outcome("httpsend-twice-ok")
 		}
+	}
+
+	// one sender used for several announcements in every order of the two
+	// encodings: each request declares the encoding it carries
+	for _, seq := range []string{"json,cbor", "cbor,json", "json,json,cbor", "json,cbor,json,cbor"} {
+		key := "httpsend-one-sender|" + seq
+		if !r.Mine(key) {
+			continue
+		}
+		r.Eval(key, true)
+		one, err := httpsender.New([]*url.URL{u}, pub.ID, httpsender.WithClient(n.Client()))
+		if err != nil {
+			r.Violation("httpsender:new-error", key, err.Error(), nil)
+			continue
+		}
+		for i, mode := range strings.Split(seq, ",") {
+			msg := message.Message{Cid: c, Addrs: [][]byte{valid[0].Bytes()}}
+			ctx, cancel := context.WithTimeout(context.Background(), 30*time.Second)
+			var serr error
+			pn, pm := vp.Guard(func() {
+				if mode == "cbor" {
+					serr = one.Send(ctx, msg)
+				} else {
+					serr = one.SendJson(ctx, msg)
+				}
+			})
+			cancel()
+			if pn || serr != nil {
+				r.Violation("httpsender:send-error", key, fmt.Sprint(firstLine(pm), serr), nil)
+				break
+			}
+			mu.Lock()
+			body, ct := gotBody, gotCT
+			mu.Unlock()
+			var got message.Message
+			var derr error
+			wantCT := "application/json"
+			if mode == "cbor" {
+				derr = got.UnmarshalCBOR(bytes.NewReader(body))
+				wantCT = "application/octet-stream"
+			} else {
+				derr = json.Unmarshal(body, &got)
+			}
+			if derr != nil || ct != wantCT || !got.Cid.Equals(c) {
+				r.Violation("httpsender:content-type-or-body-after-earlier-sends:"+mode, key, fmt.Sprintf("announcement %d (%s) of the sequence %s on one sender: Content-Type %q (want %q), decode error %v", i+1, mode, seq, ct, wantCT, derr), nil)
+				break
+			}
+		}
+		one.Close()
+		r.Outcome("httpsend-one-sender-ok")
 	}
 
 	// pubsub sender on a single-host topic
